@@ -1006,6 +1006,19 @@ impl core::ops::BitOr for {name} {{
                 else:
                     close_impl()
                 self.emit_item(e[1], e[2])
+            elif e[0] == "expect":
+                fi, cands = self.src.find(e[1])
+                cands = [c for c in (cands or []) if c.kind != "impl"]
+                if not cands:
+                    raise ExtractError(f"lost anchor: item {e[1]} not found")
+                it = cands[0]
+                want = [t.text for t in tokenize(e[2]) if t.kind not in (WS, COMMENT)]
+                have = [fi.v.text(q) for q in range(it.start, it.end) if fi.v.t[q].kind not in (WS, COMMENT)][:len(want)]
+                # attributes / doc comments before the item are not part of the expectation
+                toks = [fi.v.text(q) for q in range(it.kw if hasattr(it, "kw") else it.start, it.end) if fi.v.t[q].kind not in (WS, COMMENT)]
+                if have != want and toks[:len(want)] != want and ["pub"] + toks[:len(want) - 1] != want:
+                    raise ExtractError(f"item {e[1]} no longer starts with `{e[2]}` (a stub of this unit relies on it)")
+                self.log.append({"rule": "R18", "file": "", "line": 0, "note": f"{e[1]} expected to start with `{e[2]}`: holds"})
             elif e[0] == "sameitem":
                 self.check_same_item(e[1], e[2])
             elif e[0] == "lemma":
